@@ -689,15 +689,15 @@ fn mode_intern(f: &[&str]) -> String {
             }
             let caps: Vec<String> = bufs.iter().map(|(_, c, l)| format!("{c}/{l}")).collect();
             out.push(format!(
-                "IDS {} MOVED {} LOST {} STALE {} NBUF {} LOCS {}",
+                "IDS {} MOVED {} LOST {} STALE {} NBUF {} LOCS {} CAPS {}",
                 ids.iter().map(|x| x.to_string()).collect::<Vec<_>>().join(","),
                 moved as u8,
                 lost as u8,
                 stale,
                 bufs.len(),
-                locs.join(",")
+                locs.join(","),
+                caps.join(",")
             ));
-            let _ = caps;
         }
         "meta" => {
             // ops: m<k:v+k:v>  each k,v small ints naming strings "s<k>"
